@@ -421,7 +421,19 @@ pub fn run_c12(case: &C12Case, strategy: Option<Strategy>) -> C12Trace {
     }
     // the state shared by all instances is now only held by the original
     let drops_before_final = leaves.iter().map(|id| toks::drops(*id)).collect();
-    let final_obs = match guarded(move || drop(original)) {
+    // the original goes away by drop, by an explicit verify() or through Termination::report(): the stored values
+    // must be released (exactly once) on each of these paths
+    let final_obs = match case.hash64() % 3 {
+        0 => guarded(move || drop(original)),
+        1 => guarded(move || original.verify()),
+        #[cfg(feature = "cfg-std")]
+        _ => guarded(move || {
+            let _code = std::process::Termination::report(original);
+        }),
+        #[cfg(not(feature = "cfg-std"))]
+        _ => guarded(move || drop(original)),
+    };
+    let final_obs = match final_obs {
         Ok(()) => Obs::Silent,
         Err(o) => o,
     };
@@ -1143,6 +1155,43 @@ pub fn run_c13_bigchain(n: usize) -> Result<(), String> {
     if infos.len() != n || infos.iter().any(|i| i.drops != 1) {
         return Err(format!("{} of {n} values dropped exactly once", infos.iter().filter(|i| i.drops == 1).count()));
     }
+    run_c13_zst()
+}
+
+/// Zero-sized values with a destructor (marker / guard types) are lent values like any other: dropped exactly once,
+/// not before their owner, also when `make_mut` releases earlier ones.
+static ZST_DROPS: std::sync::atomic::AtomicUsize = std::sync::atomic::AtomicUsize::new(0);
+struct ZstGuard;
+impl Drop for ZstGuard {
+    fn drop(&mut self) {
+        ZST_DROPS.fetch_add(1, std::sync::atomic::Ordering::SeqCst);
+    }
+}
+
+pub fn run_c13_zst() -> Result<(), String> {
+    use std::sync::atomic::Ordering::SeqCst;
+    ZST_DROPS.store(0, SeqCst);
+    let mut u = Unimock::new(()).no_verify_in_drop();
+    let c = u.clone();
+    let _a: &ZstGuard = u.make_ref(ZstGuard);
+    let _b: &ZstGuard = u.make_ref(ZstGuard);
+    let _c: &ZstGuard = c.make_ref(ZstGuard);
+    let _v: &Val = u.make_ref(Val::new());
+    if ZST_DROPS.load(SeqCst) != 0 {
+        return Err("a zero-sized lent value was dropped while its owner is alive".into());
+    }
+    drop(c);
+    if ZST_DROPS.load(SeqCst) != 1 {
+        return Err(format!("dropping a clone that lent one zero-sized value dropped {} of them", ZST_DROPS.load(SeqCst)));
+    }
+    let _m: &mut ZstGuard = u.make_mut(ZstGuard);
+    if ZST_DROPS.load(SeqCst) != 3 {
+        return Err(format!("make_mut must release the two earlier zero-sized values of the instance; {} dropped in total", ZST_DROPS.load(SeqCst)));
+    }
+    drop(u);
+    if ZST_DROPS.load(SeqCst) != 4 {
+        return Err(format!("{} of 4 zero-sized lent values dropped exactly once", ZST_DROPS.load(SeqCst)));
+    }
     Ok(())
 }
 
@@ -1429,13 +1478,69 @@ pub fn run_child(what: &str, args: &[String], acc: &mut Acc) -> bool {
             }
             true
         }
+        "c15-helper-race" => {
+            // several threads share one fresh instance by reference and make their *first* delegated `&self` call
+            // at the same moment: the internal delegation helper is created once, every default body runs against
+            // the same mock, nobody panics
+            let threads = 8;
+            for index in 0..cases {
+                toks::reset();
+                let (u, shared_ids) = lending_mock();
+                let barrier = std::sync::Barrier::new(threads);
+                let results: Vec<Result<u32, Obs>> = std::thread::scope(|scope| {
+                    let hs: Vec<_> = (0..threads)
+                        .map(|_| {
+                            let (u, barrier) = (&u, &barrier);
+                            scope.spawn(move || {
+                                barrier.wait();
+                                guarded(|| u.l_default(0).id)
+                            })
+                        })
+                        .collect();
+                    hs.into_iter().map(|h| h.join().unwrap_or(Err(Obs::PanicOther))).collect()
+                });
+                acc.cases += 1;
+                acc.executions += 1;
+                acc.case_hashes.insert(mix3(seed, worker, index));
+                acc.add("delegated_calls", threads as u64);
+                let bad: Vec<String> = results
+                    .iter()
+                    .filter(|r| !matches!(r, Ok(id) if *id == shared_ids[0]))
+                    .map(|r| format!("{r:?}"))
+                    .collect();
+                drop(u);
+                if !bad.is_empty() {
+                    acc.violations += 1;
+                    if acc.violations <= 5 {
+                        let d = Discrepancy {
+                            props: vec!["C15", "C10"],
+                            at: format!("{threads} threads making their first delegated call on one shared instance"),
+                            expected: format!("every call returns the shared value {}", shared_ids[0]),
+                            observed: bad.join("; "),
+                        };
+                        emit(what, seed, worker, index, &d, "l_default(0) x 8 threads, fresh mock", "free-running");
+                    }
+                }
+            }
+            if acc.samples.is_empty() {
+                acc.samples.push("fresh mock; 8 threads behind a barrier call the provided method l_default(0) through &Unimock".into());
+            }
+            true
+        }
         "c13-bigchain" => {
             let n: usize = arg(args, "--len").unwrap_or("100000".into()).parse().unwrap();
             acc.cases += 1;
             acc.executions += 1;
             acc.case_hashes.insert(n as u64);
             acc.add("chain_length", n as u64);
-            if let Err(e) = run_c13_bigchain(n) {
+            // on a thread with a small stack (256 KiB): releasing a long chain must not need stack per lent value
+            let r = std::thread::Builder::new()
+                .stack_size(256 * 1024)
+                .spawn(move || run_c13_bigchain(n))
+                .expect("spawn")
+                .join()
+                .unwrap_or_else(|_| Err("the thread releasing the chain panicked".into()));
+            if let Err(e) = r {
                 acc.violations += 1;
                 let d = Discrepancy {
                     props: vec!["C13"],
